@@ -816,7 +816,62 @@ def r05_9(run):
     run.floor('R05.9', 'resolve answers in the binary-address parsers', k, 2)
 
 
+def r05_10(run):
+    """what a reply parser takes for granted about the buffer (an `assert len(self._data) >= K` with a comment saying the caller
+    checked) is what the dispatcher really established: the dispatcher's own "not enough bytes yet" guard waits for at least K bytes.
+    A guard lowered below a parser's assertion turns a reply that is split inside its first K bytes into an AssertionError out of
+    dataReceived - the attempt is never resolved."""
+    pr = MU(run, '_parse_request_reply')
+    g = cfg_of(pr)
+    waits = []
+    for t in g.live:
+        if t.kind != 'test':
+            continue
+        lg = _len_guard(t.ast)
+        if lg is None or not isinstance(const(lg[1]), int):
+            continue
+        op, K = lg[0], const(lg[1])
+        # the edge on which the function goes on parsing establishes len >= established
+        for lab, s_ in t.succ:
+            if lab not in ('T', 'F'):
+                continue
+            nxt = s_
+            returns_at_once = nxt.kind == 'stmt' and isinstance(nxt.ast, ast.Return)
+            if returns_at_once:
+                continue
+            est = None
+            if isinstance(op, ast.Lt):
+                est = K if lab == 'F' else None
+            elif isinstance(op, ast.LtE):
+                est = K + 1 if lab == 'F' else None
+            elif isinstance(op, ast.GtE):
+                est = K if lab == 'T' else None
+            elif isinstance(op, ast.Gt):
+                est = K + 1 if lab == 'T' else None
+            if est is not None:
+                waits.append(est)
+    run.floor('R05.10', 'length guards in _parse_request_reply', len(waits), 1)
+    have = max(waits) if waits else 0
+    ci = machine(run)
+    k = 0
+    for name, u in ci.methods.items():
+        if not name.startswith('_parse_') or name in ('_parse_request_reply', '_parse_version_reply'):
+            continue
+        for st in walk_unit(u):
+            if isinstance(st, ast.Assert):
+                lg = _len_guard(st.test)
+                if lg is None or not isinstance(const(lg[1]), int):
+                    continue
+                need = const(lg[1]) + (1 if isinstance(lg[0], ast.Gt) else 0)
+                k += 1
+                run.ob('R05.10', u, st, 'the dispatcher has waited for the bytes %s asserts' % name, have >= need, slot='assert-covered:%s' % name,
+                       message='%s asserts %s but _parse_request_reply goes on with %d bytes buffered: a reply split inside its first %d bytes raises AssertionError '
+                               'out of dataReceived and the attempt is never resolved' % (name, src(st.test), have, need))
+    run.ob('R05.10', pr, pr.node, 'parser assertions examined (%d)' % k, True)
+
+
 RULES = [
+    ('R05.10', 'caller/callee agreement: every buffer-length assertion of a reply parser is established by the dispatcher\'s guard', r05_10),
     ('R05.1', 'automat transition-table obligations: who creates/delivers, relaying entered only with the application connection, remainder flushed on entering relaying, dead states silent, failures end in _disconnect', r05_1),
     ('R05.2', 'dominance: every buffer consumption behind a length test covering it; success inputs raised after consuming', r05_2),
     ('R05.3', 'dominance: address parsing behind version==5 and REP==succeeded; header layout VER REP RSV ATYP; error built from REP', r05_3),
@@ -831,6 +886,7 @@ RULES = [
 from ..selftest import M  # noqa: E402
 F = 'txtorcon/socks.py'
 MUTANTS = [
+    M('dispatcher-waits-for-less-than-parser-asserts', F, "        if len(self._data) < 8:\n            return\n        msg = self._data[:4]", "        if len(self._data) < 5:\n            return\n        msg = self._data[:4]", ['R05.10']),
     M('resolve-ipv6-raw-bytes', F, "                self.reply_domain_name(inet_ntop(AF_INET6, addr))", "                self.reply_domain_name(addr)", ['R05.9']),
     M('disconnect-raw-reason', F, "        self._machine.disconnected(SocksError(reason))", "        self._machine.disconnected(reason.value)", ['R05.7']),
     M('machine-output-queued', F, "            on_data=self._on_data,\n", "", ['R05.7']),
